@@ -707,6 +707,14 @@ func (ts *TermStore) cmp(op Op, a, b *Term) *Term {
 	if a == b {
 		return ts.Bool(op == OpULe || op == OpSLe)
 	}
+	// comparison of a constant with an ite that has a constant leaf: push inside
+	// (table lookups at symbolic indices are ite chains over constants)
+	if b.IsConst() && a.op == OpIte && (a.args[1].IsConst() || a.args[2].IsConst()) {
+		return ts.Ite(a.args[0], ts.cmp(op, a.args[1], b), ts.cmp(op, a.args[2], b))
+	}
+	if a.IsConst() && b.op == OpIte && (b.args[1].IsConst() || b.args[2].IsConst()) {
+		return ts.Ite(b.args[0], ts.cmp(op, a, b.args[1]), ts.cmp(op, a, b.args[2]))
+	}
 	if op == OpSLt || op == OpSLe {
 		// signed comparison of operands whose sign is known is an unsigned one (or decided)
 		na, nb := ts.nonNeg(a), ts.nonNeg(b)
